@@ -139,6 +139,26 @@ func genRootMatcher(r *vh.Rand) *matcher {
 	return &m
 }
 
+// a publisher-id list of 1-3 entries: literals and specials (the side's own special, an unknown one) in any position
+func genIDList(r *vh.Rand, special string) []string {
+	l := pickSome(r, pubIDs, 0, 2)
+	if r.Chance(1, 2) {
+		l = append(l, special)
+	}
+	if r.Chance(1, 8) {
+		l = append(l, "$UNKNOWN")
+	}
+	if len(l) == 0 {
+		l = []string{r.Pick(pubIDs)}
+	}
+	p := r.Perm(len(l))
+	out := make([]string, len(l))
+	for i, j := range p {
+		out[i] = l[j]
+	}
+	return out
+}
+
 func genNames(r *vh.Rand) []string {
 	l := pickSome(r, nameEntries, 1, 2)
 	if r.Chance(1, 3) {
@@ -204,13 +224,7 @@ func genAlt(r *vh.Rand, plugSide, inst, arity bool) alt {
 					a.SlotSnapIDs = pickSome(r, snapIDs, 1, 2)
 				}
 				if p() {
-					a.SlotPubIDs = pickSome(r, pubIDs, 1, 2)
-					if r.Chance(1, 2) {
-						a.SlotPubIDs = append(a.SlotPubIDs, "$PLUG_PUBLISHER_ID")
-					}
-					if r.Chance(1, 10) {
-						a.SlotPubIDs = append(a.SlotPubIDs, "$UNKNOWN")
-					}
+					a.SlotPubIDs = genIDList(r, "$PLUG_PUBLISHER_ID")
 				}
 			} else {
 				if p() {
@@ -220,10 +234,7 @@ func genAlt(r *vh.Rand, plugSide, inst, arity bool) alt {
 					a.PlugSnapIDs = pickSome(r, snapIDs, 1, 2)
 				}
 				if p() {
-					a.PlugPubIDs = pickSome(r, pubIDs, 1, 2)
-					if r.Chance(1, 2) {
-						a.PlugPubIDs = append(a.PlugPubIDs, "$SLOT_PUBLISHER_ID")
-					}
+					a.PlugPubIDs = genIDList(r, "$SLOT_PUBLISHER_ID")
 				}
 			}
 		}
@@ -674,6 +685,81 @@ func fixedCases() []in {
 		for _, sd := range []*decl{nil, {SnapID: snapIDs[1], PubID: "pub-one"}} {
 			out = append(out, in{Kind: "conn", Env: env, Plug: p, Slot: s, PlugDecl: pd, SlotDecl: sd,
 				Base: decl{Slots: []irule{{"ia", spub}}}, ExtraDenyPlug: none, ExtraDenySlot: none})
+		}
+	}
+	// id lists are alternations: specials in every position, resolvable or not, the id matching an earlier / a later
+	// literal, the special's value, or nothing; on plug rules (slot-publisher-id) and slot rules (plug-publisher-id), as
+	// allow and as deny constraint, for Check and CheckAutoConnect
+	idc := 0
+	for _, plugSide := range []bool{true, false} {
+		sp := "$SLOT_PUBLISHER_ID"
+		if plugSide {
+			sp = "$PLUG_PUBLISHER_ID"
+		}
+		for _, list := range [][]string{{sp, "canonical"}, {"canonical", sp}, {"canonical", sp, "pub-two"}, {sp, "canonical", "pub-two"},
+			{"$UNKNOWN", "canonical"}, {sp, "$UNKNOWN", "pub-two"}, {"pub-two", "canonical"}} {
+			for _, resolvable := range []bool{false, true} {
+				for _, idPub := range []string{"canonical", "pub-two", "pub-one", ""} {
+					idc++
+					kind, idx := "conn", 2
+					if idc%2 == 0 {
+						kind, idx = "auto", 4
+					}
+					idx += (idc / 2) % 2 // allow / deny
+					ru := rule{}
+					a := alt{}
+					if plugSide {
+						a.SlotPubIDs = list
+					} else {
+						a.PlugPubIDs = list
+					}
+					ru.Sub[idx] = &subrule{One: &a}
+					// idSide: the declaration whose publisher is compared; otherSide: the one the special resolves to
+					var idDecl, otherDecl *decl
+					if idPub != "" {
+						idDecl = &decl{SnapID: snapIDs[0], PubID: idPub}
+					}
+					if resolvable {
+						otherDecl = &decl{SnapID: snapIDs[1], PubID: "pub-one"}
+					}
+					i := in{Kind: kind, Env: env, Plug: p, Slot: s, ExtraDenyPlug: none, ExtraDenySlot: none}
+					if plugSide {
+						i.SlotDecl, i.PlugDecl = idDecl, otherDecl
+						i.Base = decl{Plugs: []irule{{"ia", ru}}}
+					} else {
+						i.PlugDecl, i.SlotDecl = idDecl, otherDecl
+						i.Base = decl{Slots: []irule{{"ia", ru}}}
+					}
+					out = append(out, i)
+				}
+			}
+		}
+	}
+	// installation: snap-id lists (no specials exist for them) matching an earlier / a later entry or none
+	for _, plugSide := range []bool{true, false} {
+		for _, sid := range []string{snapIDs[0], snapIDs[1], snapIDs[2], ""} {
+			for deny := 0; deny < 2; deny++ {
+				a := alt{}
+				i := in{Kind: "inst", Env: env, Type: "app", ExtraDenyPlug: none, ExtraDenySlot: none}
+				ru := rule{}
+				if plugSide {
+					a.PlugSnapIDs = []string{snapIDs[0], snapIDs[1]}
+					i.Plugs = []side{p}
+				} else {
+					a.SlotSnapIDs = []string{snapIDs[0], snapIDs[1]}
+					i.Slots = []side{{Name: "n2", Iface: "ia", Type: "app"}}
+				}
+				ru.Sub[deny] = &subrule{One: &a}
+				if plugSide {
+					i.Base = decl{Plugs: []irule{{"ia", ru}}}
+				} else {
+					i.Base = decl{Slots: []irule{{"ia", ru}}}
+				}
+				if sid != "" {
+					i.Decl = &decl{SnapID: sid, PubID: "pub-one"}
+				}
+				out = append(out, i)
+			}
 		}
 	}
 	// attribute constraints over nested maps and lists
